@@ -531,6 +531,8 @@ func (s *state) visitForRange(node *ast.ForNode) {
 		limit = rangeNode.Args[1]
 	case 1:
 		limit = rangeNode.Args[0]
+	default:
+		s.errorf("range() takes 1 to 3 arguments, got %d", len(rangeNode.Args))
 	}
 
 	var varIndex,
